@@ -33,7 +33,8 @@ def run(cmd, cwd, timeout, env=None, out=None):
     t0 = time.time()
     with open(out or os.devnull, "w") as f:
         try:
-            p = subprocess.Popen(cmd, cwd=cwd, env=e, stdout=f, stderr=subprocess.STDOUT, start_new_session=True)
+            # own process group (so that leftovers can be killed), but not a session leader: demos may call setpgrp()
+            p = subprocess.Popen(cmd, cwd=cwd, env=e, stdout=f, stderr=subprocess.STDOUT, process_group=0)
             code = p.wait(timeout=timeout)
         except subprocess.TimeoutExpired:
             import signal
